@@ -149,6 +149,7 @@ class RunDomain(DefaultDomain):
             def on_exc(s):
                 if s.get("ev.outcomes", 0) > 0:
                     s = s.set("ev.onexc_after_outcome", 1)
+                s = s.set("ev.onexc", 1)
                 return [val(NONE, s.note(("onException", call.lineno))), exc(("framework", "addOnException handler raised"), s)]
             return self._with_args(interp, call, st, fr, on_exc)
         if d in ("self.case.getDetails", "self.case.defaultTestResult"):
